@@ -13,8 +13,8 @@ func init() {
 	Registry["C11"] = c11
 	Metas["C11"] = Meta{Level: "translation_validation", NeedCG: false, Ref: true,
 		Technique: "translation validation: token- and name-resolution equivalence of every function of eth/trie, eth/core/state and eth/rlp (with dependency closure) against go-ethereum v1.8.27; independent journal create/revert pairing table",
-		Explain: "Translation validation against the oracle the property itself adopts (the reference implementation's roots). Every function of eth/trie (canonical node shapes, hashing, commit, proofs, database), eth/core/state (StateDB, state objects, journal) and eth/rlp is EQUIVALENT to its namesake in go-ethereum v1.8.27 — identical token sequence, every identifier resolving to the corresponding object, and all referenced constants (by value), types, variables and callees of the eth tree (common, crypto, ethdb, params, ...) compared in turn — or is one of the reviewed version-drift rows (compactToHex's empty-input guard, Database.Node's meta-root guard, the extended ethdb.Database interface, ChainConfig without Petersburg), each pinned to an exact reviewed edit of the reference. (R2) independently of the reference: the set of journal entry kinds appended by StateDB/stateObject equals the set of kinds that implement revert, and every revert writes state. `programs` = functions compared; `disagreements_checked` = functions that differ and were decided by a deviation row. The property's claims (root is a function of content, commit/reopen, exact revert, proofs) are inherited from the reference. NOT decided: the reference's own correctness; history independence as such.",
-		Assume: []string{"go-ethereum v1.8.27 (module cache) is the reference semantics", "packages log and metrics are opaque (no influence on roots)"},
+		Explain:   "Translation validation against the oracle the property itself adopts (the reference implementation's roots). Every function of eth/trie (canonical node shapes, hashing, commit, proofs, database), eth/core/state (StateDB, state objects, journal) and eth/rlp is EQUIVALENT to its namesake in go-ethereum v1.8.27 — identical token sequence, every identifier resolving to the corresponding object, and all referenced constants (by value), types, variables and callees of the eth tree (common, crypto, ethdb, params, ...) compared in turn — or is one of the reviewed version-drift rows (compactToHex's empty-input guard, Database.Node's meta-root guard, the extended ethdb.Database interface, ChainConfig without Petersburg), each pinned to an exact reviewed edit of the reference. (R2) independently of the reference: the set of journal entry kinds appended by StateDB/stateObject equals the set of kinds that implement revert, and every revert writes state. `programs` = functions compared; `disagreements_checked` = functions that differ and were decided by a deviation row. The property's claims (root is a function of content, commit/reopen, exact revert, proofs) are inherited from the reference. NOT decided: the reference's own correctness; history independence as such.",
+		Assume:    []string{"go-ethereum v1.8.27 (module cache) is the reference semantics", "packages log and metrics are opaque (no influence on roots)"},
 	}
 }
 
